@@ -12,4 +12,23 @@ CHECKS = {
                 'outside the 21 endings.',
         'note': _TB,
     },
+    'C01': {
+        'category': 'fault_enumeration',
+        'technique': 'runtime monitoring: recorded call trace of stub instructions through the real executor, offline trace-predicate checker, exhaustive fault plans',
+        'text': 'Stub instructions and a stub actor are run through the public full_execution.execute under every fault plan '
+                '(failing step x position x kind, singly and combined with a failing cleanup instruction, n<=2 exhaustively; '
+                'n=3 and random multi-fault plans in thorough) x status x {normal, act-only}. The recorded event trace and the '
+                'result are judged by six independent trace predicates (validation-before-main, order, halt, cleanup exactly '
+                'once with the right previous phase, outcome names earliest failing or cleanup step with its kind, SKIP).',
+        'note': _TB + '; stubs subclass the public instruction classes, so real instructions that misreport their own results are out of scope',
+    },
+    'C04': {
+        'category': 'fault_enumeration',
+        'technique': 'runtime monitoring: state snapshots at every step event (stub executor runs) and around real CLI runs; audit-hook monitor for environment changes',
+        'text': 'Every single fault plan (n<=2) x keep is executed with stubs that snapshot sandbox layout, cwd, tmp/ and result/ at '
+                'every step; after return sandbox removal / retention, cwd, os.environ and putenv audit events are checked. '
+                'Real CLI runs of generated cases with cd/env/chmod/tree disturbances x 10 endings x --keep repeat the '
+                'after-return and result/-contents checks on real instructions.',
+        'note': _TB + '; root user: read-only directories cannot obstruct removal here',
+    },
 }
